@@ -3,6 +3,7 @@
 import json, os, subprocess
 ROOT = os.path.dirname(os.path.dirname(os.path.abspath(__file__)))
 
+GRID = "E2 generated query grid evaluated on a reachable-state catalogue (mc/grid, tools/gen_grid.py)"
 FAULT = "E5 exhaustive fault enumeration on the real code (mc/fault): panic injection at every user-callback index / every single edit of every base serialization"
 SCHED = "E3 stateless DFS over task orders of run_schedule through the fork/join seam H2 (mc/sched, generated schedule family)"
 HIST = "E1 explicit-state BFS over operation histories on the real World (mc/hist)"
@@ -55,6 +56,12 @@ CHECKS = {
  "C18": ("exploration", "§2 C18", "generated programs (mc/dup) + E6",
    "All 120 duplicate-position registries of length 2..9 plus the 8 duplicate-free ones through 6 constructors (new, with_resources, default, Deserialize in 3 encodings): must panic / must return; all 120 column-length tuples in {0,1,2}^k (k=1..4): Batch::new returns iff equal, extend then stores rows and the structure audit holds; Batch::new_unchecked requires unsafe. The space stated in the property is finite and enumerated completely.",
    "components are distinct nominal types; TypeId-based duplicate detection trusted to be what it is"),
+ "C03": ("exploration", "§2 C03", GRID,
+   "Generated query instantiations: view kind per component x identifier position x view order x filter expression (quick: covering subset, thorough: full product with all orders and 11 filters), each evaluated on every world of a catalogue (all states reachable within depth 3/4 of the shape alphabet) in four traversal modes (next() with size_hint bracket check before every call, fold, k x next() then fold), plus World::entry(id).query for every identifier, plus query-time Entries with every (declared, requested) entry-view kind pair (thorough: the full 4913-combination product); oracle = the reference model's evaluation of filter and views, written values read back.",
+   "registry S4, views over (A heap-owning, Z zero-sized, O over-aligned), B in filters; compile time bounds the quick product"),
+ "C09": ("model_checking", "§2 C09", GRID + " + E4 split-tree explorer (mc/split, vendored rayon with an inert-by-default split oracle)",
+   "(i) par_query instantiations of the view grid with five consumers (for_each, map+collect, count, any, sum) against the sequential query on every catalogue world: same multiset, distinct &mut addresses, same outcome of a per-entity update. (ii) Every answer sequence of rayon's Splitter::try_split, i.e. every split tree, for every (world, view set, consumer) configuration: worlds = every assignment of {absent, emptied, 1..n rows} to three tables plus 20- and 32-table worlds whose bucket ranges do split; view sets cover slice, RepeatN, RepeatNone, identifier and zipped producers.",
+   "the oracle replaces rayon's adaptive heuristic only; on a 1-thread pool the execution is a function of the answer sequence; rayon's mechanics, hashbrown and rustc trusted"),
 }
 NOT_YET = {
  "C03": "check under construction (E2 view/filter grid)",
@@ -104,9 +111,11 @@ def main():
     }
     json.dump(m, open(os.path.join(ROOT, "MANIFEST.json"), "w"), indent=1)
 
-TECH0 = {"C14": "bounded-exhaustive enumeration of a generated program space (compiler as transition function, reference verdict model as oracle)", "C18": "complete enumeration of the finite input space stated in the property (all duplicate-position registries, all column-length tuples) executed on the implementation", "C11": "exhaustive enumeration of input edits (all single edits at all positions, 3 encodings) executed on the implementation, Err/valid-world oracle", "C17": "exhaustive enumeration of fault positions (every callback index of every operation on every base world) executed on the implementation, ledger/allocator oracle"}
+TECH0 = {"C03": "bounded-exhaustive enumeration of query instantiations x reachable states, executed on the implementation against a reference model", "C09": "stateless model checking: exhaustive enumeration of rayon split trees (controlled split oracle) + exhaustive par/seq differential over the query grid", "C14": "bounded-exhaustive enumeration of a generated program space (compiler as transition function, reference verdict model as oracle)", "C18": "complete enumeration of the finite input space stated in the property (all duplicate-position registries, all column-length tuples) executed on the implementation", "C11": "exhaustive enumeration of input edits (all single edits at all positions, 3 encodings) executed on the implementation, Err/valid-world oracle", "C17": "exhaustive enumeration of fault positions (every callback index of every operation on every base world) executed on the implementation, ledger/allocator oracle"}
 TECH = {p: "stateless model checking of the implementation: exhaustive enumeration of task orders per fork/join nest under a controlled scheduler, sequential reference / footprint oracle" for p in ("C07", "C08", "C12")}
 ENGINES = [
+ {"name": "grid", "path": "/verif/mc/grid", "serves_properties": ["C03", "C09"], "kind_free_text": "generated product of query instantiations x reachable-world catalogue, reference-model oracle"},
+ {"name": "split", "path": "/verif/mc/split", "serves_properties": ["C09"], "kind_free_text": "stateless DFS over the answers of rayon's split decisions (vendored rayon 1.12.0 + thread-claimed oracle), every split tree of par_query"},
  {"name": "progs", "path": "/verif/tools/progs.py", "serves_properties": ["C14", "C18"], "kind_free_text": "program-family enumeration: rustc --emit=metadata per generated program against the current rlib, reference verdict model"},
  {"name": "dup", "path": "/verif/mc/dup", "serves_properties": ["C18"], "kind_free_text": "generated duplicate-registry and ragged-batch enumeration"},
  {"name": "fault", "path": "/verif/mc/fault", "serves_properties": ["C11", "C17"],
